@@ -1,0 +1,38 @@
+//go:build verif
+
+package desync
+
+import "os"
+
+// VerifCanClone, when set by the verification harness, replaces the probe in
+// CanClone, so that the block-cloning code paths can be exercised on a
+// filesystem without reflink support.
+var VerifCanClone func(dstFile, srcFile string) bool
+
+// VerifCloneRange, when set, replaces the FICLONERANGE ioctl in CloneRange
+// with the harness's emulation of it.
+var VerifCloneRange func(dst, src *os.File, srcOffset, srcLength, dstOffset uint64) error
+
+// VerifBlocksize, when set and non-zero, replaces the block size reported for a file.
+var VerifBlocksize func(name string) uint64
+
+func verifCanClone(dstFile, srcFile string) (handled, ok bool) {
+	if f := VerifCanClone; f != nil {
+		return true, f(dstFile, srcFile)
+	}
+	return false, false
+}
+
+func verifCloneRange(dst, src *os.File, srcOffset, srcLength, dstOffset uint64) (handled bool, err error) {
+	if f := VerifCloneRange; f != nil {
+		return true, f(dst, src, srcOffset, srcLength, dstOffset)
+	}
+	return false, nil
+}
+
+func verifBlocksize(name string) uint64 {
+	if f := VerifBlocksize; f != nil {
+		return f(name)
+	}
+	return 0
+}
